@@ -24,6 +24,40 @@ inductive RStyle where
   | towardZero | towardInf | downward | upward
   deriving Repr, DecidableEq
 
+/-! ### machine integers -/
+
+/-- a C++ integer type: signedness and width -/
+structure IType where
+  signed : Bool
+  bits : Nat
+  deriving Repr, DecidableEq
+
+def IType.lo (t : IType) : Int := if t.signed then -(2 ^ (t.bits - 1) : Int) else 0
+def IType.hi (t : IType) : Int := if t.signed then 2 ^ (t.bits - 1) - 1 else 2 ^ t.bits - 1
+def IType.fits (t : IType) (x : Int) : Bool := decide (t.lo ≤ x) && decide (x ≤ t.hi)
+
+/-- every intermediate value goes through this check -/
+def chk (t : IType) (x : Int) : Option Int := if t.fits x then some x else none
+
+def int32 : IType := ⟨true, 32⟩
+def int64 : IType := ⟨true, 64⟩
+def uint32 : IType := ⟨false, 32⟩
+def uint64 : IType := ⟨false, 64⟩
+def int8 : IType := ⟨true, 8⟩
+def int16 : IType := ⟨true, 16⟩
+def uint8 : IType := ⟨false, 8⟩
+def uint16 : IType := ⟨false, 16⟩
+
+/-- a value stored in a variable of type `I`: unsigned arithmetic is arithmetic modulo `2^bits` (`lower--` on an
+    unsigned `0` gives the largest value of the type); for a signed `I` the value is kept (overflow is undefined
+    behaviour, outside the domain of the model) -/
+def IType.wrap (t : IType) (x : Int) : Int := if t.signed then x else x % (2 ^ t.bits : Int)
+
+/-- the value of the *expression* `lower + 1` for `lower` of type `I`: types narrower than `int` are promoted to `int`
+    (no wrap-around: `(unsigned char)255 + 1` is the `int` 256), the others are computed in `I` -/
+def IType.arith (t : IType) (x : Int) : Int := if t.bits < 32 then x else t.wrap x
+
+
 section cmp
 variable {K : Type} [Zero K] [Neg K] [Sub K] [Mul K] [LT K] [LE K] [DecidableLT K] [DecidableLE K]
 
@@ -116,6 +150,52 @@ def trunc (s : Style) (uns : Bool) : RStyle → (K → Int) → K → K → Int
   | .towardZero, tr, val, eps => if val > ((0 : Int) : K) then truncDown s uns tr val eps else truncUp s uns tr val eps
   | .towardInf, tr, val, eps => if val > ((0 : Int) : K) then truncUp s uns tr val eps else truncDown s uns tr val eps
 
+/-! ### round / trunc with the integer target type `I` made explicit
+
+The functions above compute with mathematical integers: they are the code for a target type in which no integer
+variable leaves the range.  `roundM` / `truncM` are the same statements with every value that is stored in an `I`
+variable (`lower--`, `upper = lower+1`, `++upper`, `return lower+1`) reduced as the type does (`IType.wrap`), and the
+expression `T(lower+1)` evaluated after the integral promotions (`IType.arith`).  The difference shows for an unsigned
+`I` and an argument in (-1,0): `lower--` turns 0 into the largest value `M` of `I`, and `T(lower)` is then `T(M)`, not -1.
+`trunc<upward>` relies on that: `ne(T(M), val)` holds, `++upper` wraps again and the result is 0.
+`Props/C17.lean`: `truncM_eq_trunc` / `roundM_eq_round` (no wrap-around ⇒ the functions above), `trunc_unsigned_neg_up`,
+`round_unsigned_wrap`.  The driver executes these versions. -/
+
+def roundDownM (t : IType) (s : Style) (tr : K → Int) (val eps : K) : Int :=
+  let lower := tr val
+  if eqS s (lower : K) val eps then lower else
+  let lu : Int × Int := if (lower : K) > val then (t.wrap (lower - 1), lower) else (lower, t.wrap (lower + 1))
+  if leS s (val - ((lu.2 : K) - ((1 : Int) : K))) ((lu.2 : K) - val) eps then lu.1 else lu.2
+
+def roundUpM (t : IType) (s : Style) (tr : K → Int) (val eps : K) : Int :=
+  let lower := tr val
+  if eqS s (lower : K) val eps then lower else
+  let lu : Int × Int := if (lower : K) > val then (t.wrap (lower - 1), lower) else (lower, t.wrap (lower + 1))
+  if ltS s (val - ((lu.2 : K) - ((1 : Int) : K))) ((lu.2 : K) - val) eps then lu.1 else lu.2
+
+def roundM (t : IType) (s : Style) : RStyle → (K → Int) → K → K → Int
+  | .downward, tr, val, eps => roundDownM t s tr val eps
+  | .upward, tr, val, eps => roundUpM t s tr val eps
+  | .towardZero, tr, val, eps => if val > ((0 : Int) : K) then roundDownM t s tr val eps else roundUpM t s tr val eps
+  | .towardInf, tr, val, eps => if val > ((0 : Int) : K) then roundUpM t s tr val eps else roundDownM t s tr val eps
+
+def truncDownM (t : IType) (s : Style) (tr : K → Int) (val eps : K) : Int :=
+  if !t.signed && eqS s val ((0 : Int) : K) eps then 0 else
+  let lower := tr val
+  let lower := if (lower : K) > val then t.wrap (lower - 1) else lower
+  if sameVal (lower : K) val then lower else
+  if eqS s ((t.arith (lower + 1) : Int) : K) val eps then t.wrap (lower + 1) else lower
+
+def truncUpM (t : IType) (s : Style) (tr : K → Int) (val eps : K) : Int :=
+  let upper := truncDownM t s tr val eps
+  if neS s (upper : K) val eps then t.wrap (upper + 1) else upper
+
+def truncM (t : IType) (s : Style) : RStyle → (K → Int) → K → K → Int
+  | .downward, tr, val, eps => truncDownM t s tr val eps
+  | .upward, tr, val, eps => truncUpM t s tr val eps
+  | .towardZero, tr, val, eps => if val > ((0 : Int) : K) then truncDownM t s tr val eps else truncUpM t s tr val eps
+  | .towardInf, tr, val, eps => if val > ((0 : Int) : K) then truncUpM t s tr val eps else truncDownM t s tr val eps
+
 end cmp
 
 /-! ### the instances the driver runs on exact inputs: the rational numbers of core Lean
@@ -143,6 +223,9 @@ def eqFVRat (s : Style) (a b : List Rat) (e : Rat) : Bool := eqFV s a b e
 def neFVRat (s : Style) (a b : List Rat) (e : Rat) : Bool := neFV s a b e
 def roundRat (s : Style) (rs : RStyle) (val eps : Rat) : Int := round s rs trRat val eps
 def truncRat (s : Style) (uns : Bool) (rs : RStyle) (val eps : Rat) : Int := trunc s uns rs trRat val eps
+/-- what the driver executes for the ops `round` / `trunc`: the integer type explicit -/
+def roundRatM (t : IType) (s : Style) (rs : RStyle) (val eps : Rat) : Int := roundM t s rs trRat val eps
+def truncRatM (t : IType) (s : Style) (rs : RStyle) (val eps : Rat) : Int := truncM t s rs trRat val eps
 
 /-! ### `sign` and `power` over a scalar type -/
 
@@ -160,25 +243,7 @@ def powerK {K : Type} [One K] [Mul K] [Div K] (m : K) (p : Int) : K :=
   let result := powLoopK m absp.toNat 1
   if p < 0 then 1 / result else result
 
-/-! ### machine integers -/
-
-/-- a C++ integer type: signedness and width -/
-structure IType where
-  signed : Bool
-  bits : Nat
-  deriving Repr, DecidableEq
-
-def IType.lo (t : IType) : Int := if t.signed then -(2 ^ (t.bits - 1) : Int) else 0
-def IType.hi (t : IType) : Int := if t.signed then 2 ^ (t.bits - 1) - 1 else 2 ^ t.bits - 1
-def IType.fits (t : IType) (x : Int) : Bool := decide (t.lo ≤ x) && decide (x ≤ t.hi)
-
-/-- every intermediate value goes through this check -/
-def chk (t : IType) (x : Int) : Option Int := if t.fits x then some x else none
-
-def int32 : IType := ⟨true, 32⟩
-def int64 : IType := ⟨true, 64⟩
-def uint32 : IType := ⟨false, 32⟩
-def uint64 : IType := ⟨false, 64⟩
+/-! ### integer helpers over machine integers (`IType`, `chk`: see above) -/
 
 /-- `for (i = 0; i < absp; i++) result *= m;` -/
 def powerLoop (t : IType) (m : Int) : Nat → Int → Option Int
